@@ -1,4 +1,6 @@
-import CoapVerif.Lemmas.AllocRecv
+import CoapVerif.Lemmas.AllocRecvSim
+import CoapVerif.Props.C05
+import CoapVerif.Props.C18
 /-
 C18 — the receive path of a reliable session (coap_read_session, stream branch; Model/AllocRecv.lean): ownership of the receive
 PDU under EVERY allocation oracle, EVERY dispatch oracle (which coap_dispatch calls disconnect the session), EVERY byte stream
@@ -6,7 +8,7 @@ and EVERY cut of it into read events.  `Own o L h` (Lemmas/AllocBlock.lean): the
 objects are exactly the pairwise distinct objects `o` plus the objects `L` that were live before.
 -/
 namespace Coap.C18
-open Coap Coap.AllocOracle Coap.AllocBlock Coap.AllocRecv
+open Coap Coap.AllocOracle Coap.AllocBlock Coap.AllocRecv Coap.M.Stream
 
 /-- AT MOST ONE PARTIAL PDU PER SESSION, at any time of any script: what is live beyond `L` is exactly the current session's
 partial PDU — no object (`ppdu = none`) or the two objects (buffer, header) of ONE PDU — and no release so far was invalid. -/
@@ -90,6 +92,233 @@ theorem recv_new_session_starts_clean (maxRcv : Nat) (L : List Nat) (evs : List 
   unfold RInv owned at h
   exact h
 
+
+/-! ## served: with memory available the skeleton IS C05's reader (simulation, Lemmas/AllocRecvSim.lean) -/
+
+/-- WHAT REACHES coap_dispatch IS WHAT THE READER DELIVERS: a session fed ANY byte stream in ANY cut into read events, with
+memory available (`Avail`: the oracle is exhausted, every request is granted; no coap_dispatch disconnects the session),
+hands to coap_dispatch (ghost `msgs`, one `dsp` record per call) exactly the messages C05's reader `Stream.feed` delivers,
+in the same order, each exactly once; the session is closed exactly when the reader closes it. -/
+theorem recv_dispatches_what_reader_delivers (m : Nat) (hc : Cap m) (chunks : List Bytes) (w : RW) (ha : Avail w) :
+    let r := (recvRun m { sess := some {}, w := w } (chunks.map .chunk)).2
+    r.w.msgs = w.msgs ++ (M.Stream.feed m M.Stream.St.init chunks).1 ∧
+    r.w.dsp.length = w.dsp.length + (M.Stream.feed m M.Stream.St.init chunks).1.length ∧
+    Avail r.w ∧
+    ∃ s', r.sess = some s' ∧ (s'.up = false ↔ (M.Stream.feed m M.Stream.St.init chunks).2 = .closed) := by
+  have h := run_sim m chunks {} w ha rfl (C05.reader_no_oob m hc chunks)
+  have hno := C05.reader_no_oob m hc chunks
+  have e : toSt {} = M.Stream.St.init := rfl
+  rw [e] at h
+  obtain ⟨h1, h2, h3, s', h4, h5⟩ := h
+  refine ⟨h2, h3, h1, s', h4, ?_⟩
+  generalize (M.Stream.feed m M.Stream.St.init chunks).2 = o at h5 hno
+  cases o with
+  | cont st => simp only at h5; simp [h5.1]
+  | closed => simp only at h5; simp [h5]
+  | oob => exact absurd rfl hno
+
+/-- … and these are the messages the SPECIFICATION finds in the concatenated bytes (C05 `reader_eq_spec`): the cut plays no
+role, every well-formed frame completely received is dispatched (C05 `spec_delivers_complete_frame`) once, in order. -/
+theorem recv_dispatches_spec_frames (m : Nat) (hc : Cap m) (chunks : List Bytes) (w : RW) (ha : Avail w) :
+    (recvRun m { sess := some {}, w := w } (chunks.map .chunk)).2.w.msgs =
+      w.msgs ++ (Spec.Stream.framesOf m chunks.flatten).1 := by
+  have h := (recv_dispatches_what_reader_delivers m hc chunks w ha).1
+  rw [C05.reader_eq_spec m hc] at h
+  rw [h]
+  generalize Spec.Stream.framesOf m chunks.flatten = q
+  rfl
+
+theorem sessionFree_avail (s : RSess) (w : RW) (ha : Avail w) :
+    Avail (sessionFree s w) ∧ (sessionFree s w).msgs = w.msgs ∧ (sessionFree s w).dsp = w.dsp := by
+  unfold sessionFree Avail
+  cases s.ppdu <;> exact ⟨⟨by simp only [pduDelete_orc]; exact ha.1, ha.2⟩, rfl, rfl⟩
+
+theorem newSess_spec (m : Nat) (st0 : RState) (ha : Avail st0.w) :
+    ∃ w', (recvStep m st0 .newSess).2 = { sess := some {}, w := w' } ∧ Avail w' ∧ w'.msgs = st0.w.msgs ∧ w'.dsp = st0.w.dsp := by
+  cases st0 with
+  | mk sess w =>
+    cases sess with
+    | none => exact ⟨w, rfl, ha, rfl, rfl⟩
+    | some s => exact ⟨sessionFree s w, rfl, sessionFree_avail s w ha⟩
+
+/-- AFTER A FAILURE THE NEXT SESSION IS SERVED: whatever happened before — ANY script under ANY oracle and dispatch oracle:
+allocations that failed, sessions closed by them, peers gone — once memory is available again (the oracle has no refusal
+left) a NEW session accepted on the endpoint and fed ANY byte stream in ANY cut gets every message of the stream dispatched:
+the messages dispatched from then on are exactly those the specification finds in the bytes, in order, each once. -/
+theorem recv_served_after_failure (m : Nat) (hc : Cap m) (evs : List REv) (st : RState) (chunks : List Bytes)
+    (hmem : Avail (recvRun m st evs).2.w) :
+    let st1 := (recvStep m (recvRun m st evs).2 .newSess).2
+    let r := (recvRun m st1 (chunks.map .chunk)).2
+    r.w.msgs = (recvRun m st evs).2.w.msgs ++ (Spec.Stream.framesOf m chunks.flatten).1 ∧
+    r.w.dsp.length = (recvRun m st evs).2.w.dsp.length + (Spec.Stream.framesOf m chunks.flatten).1.length := by
+  obtain ⟨w', e, hav, hm, hd⟩ := newSess_spec m (recvRun m st evs).2 hmem
+  simp only
+  rw [e]
+  have h1 := recv_dispatches_spec_frames m hc chunks w' hav
+  have h2 := (recv_dispatches_what_reader_delivers m hc chunks w' hav).2.1
+  rw [C05.reader_eq_spec m hc] at h2
+  refine ⟨by rw [h1, hm], ?_⟩
+  rw [h2, hd]
+  generalize Spec.Stream.framesOf m chunks.flatten = q
+  rfl
+
+/-! ## the ledger of a receive script is the monitor's replay of its trace -/
+
+theorem replays_disconnected (s : RSess) (w : RW) (hr : w.h.Replays) : (disconnected s w).2.h.Replays := by
+  unfold disconnected
+  cases s.ppdu with
+  | none => exact hr
+  | some p => exact replays_pduDelete p.pdu _ hr
+
+theorem replays_sessionFree (s : RSess) (w : RW) (hr : w.h.Replays) : (sessionFree s w).h.Replays := by
+  unfold sessionFree
+  cases s.ppdu with
+  | none => exact hr
+  | some p => exact replays_pduDelete p.pdu _ hr
+
+theorem replays_dispatchDelete (parsed : Option Msg) (p : OPdu) (s : RSess) (w : RW) (hr : w.h.Replays) :
+    (dispatchDelete parsed p s w).2.h.Replays := by
+  unfold dispatchDelete
+  cases parsed with
+  | none => exact replays_pduDelete p _ hr
+  | some m =>
+    simp only
+    by_cases hd : dcHead w.dcs = true
+    · rw [if_pos hd]
+      exact replays_pduDelete p _ (replays_disconnected s _ hr)
+    · rw [if_neg hd]
+      exact replays_pduDelete p _ hr
+
+theorem replays_headerDone (maxRcv : Nat) (s : RSess) (w : RW) (rh : Bytes) (hdrSize hl : Nat) (hr : w.h.Replays) :
+    (headerDone maxRcv s w rh hdrSize hl).2.2.h.Replays := by
+  unfold headerDone
+  cases M.parseSizeTcp rh with
+  | rej => exact hr
+  | oob => exact hr
+  | ok size =>
+    simp only
+    split
+    · exact hr
+    · have hP := replays_pduInit maxRcv w.h hr
+      rcases hq : AllocOracle.pduInit maxRcv w.h with ⟨_ | p0, h1⟩
+      · rw [hq] at hP; exact hP
+      · rw [hq] at hP
+        simp only at hP ⊢
+        have hG : (growTo p0 size h1).2.2.Replays := by
+          unfold growTo
+          split
+          · exact replays_resize p0 size h1 hP
+          · exact hP
+        split
+        · exact hG
+        · split
+          · exact replays_dispatchDelete _ _ _ _ hG
+          · exact hG
+
+theorem replays_loop (maxRcv : Nat) : ∀ (fuel : Nat) (s : RSess) (w : RW) (bs : Bytes), w.h.Replays →
+    (AllocRecv.loop maxRcv fuel s w bs).2.2.h.Replays := by
+  intro fuel
+  induction fuel with
+  | zero => intro s w bs hr; exact hr
+  | succ fuel ih =>
+    intro s w bs hr
+    unfold AllocRecv.loop
+    split
+    · exact hr
+    · cases s.ppdu with
+      | some p =>
+        simp only
+        split
+        · exact ih _ _ _ (replays_dispatchDelete _ _ _ _ hr)
+        · exact ih _ _ _ hr
+      | none =>
+        simp only
+        split
+        · cases M.rd s.rh 0 with
+          | rej => exact hr
+          | oob => exact hr
+          | ok b0 =>
+            simp only
+            split
+            · exact hr
+            · split
+              · have hH := replays_headerDone maxRcv s w
+                    (List.take s.partialRead s.rh ++ List.take (min (M.headerSize Proto.tcp b0 + tokExtOf b0 - s.partialRead) bs.length) bs)
+                    (M.headerSize Proto.tcp b0) (M.headerSize Proto.tcp b0 + tokExtOf b0) hr
+                split
+                · exact ih _ _ _ hH
+                · exact hH
+              · exact ih _ _ _ hr
+        · cases bs with
+          | nil => exact hr
+          | cons b r =>
+            simp only
+            split
+            · exact hr
+            · exact ih _ _ _ hr
+
+theorem replays_call (maxRcv : Nat) : ∀ (fuel : Nat) (s : RSess) (w : RW) (avail : Bytes), w.h.Replays →
+    (AllocRecv.call maxRcv fuel s w avail).2.2.h.Replays := by
+  intro fuel
+  induction fuel with
+  | zero => intro s w avail hr; exact hr
+  | succ fuel ih =>
+    intro s w avail hr
+    unfold AllocRecv.call
+    have hL := replays_loop maxRcv ((List.take M.Stream.rxBuf avail).length + 1) s w (List.take M.Stream.rxBuf avail) hr
+    simp only
+    cases (AllocRecv.loop maxRcv ((List.take M.Stream.rxBuf avail).length + 1) s w (List.take M.Stream.rxBuf avail)).1 with
+    | ok =>
+      simp only
+      split
+      · exact ih _ _ _ hL
+      · exact hL
+    | fail => exact replays_disconnected _ _ hL
+    | oob => exact hL
+
+/-- THE LEDGER OF EVERY RECEIVE SCRIPT IS THE MONITOR'S REPLAY OF ITS TRACE (the driver's `ledger=ok` per run, as a theorem):
+after any script — any oracle, any dispatch oracle, any streams and cuts — and after the tear-down, the model's `live` / `ok`
+bookkeeping is what the verified monitor `Sessions.runLedger` computes from the model's alloc/free trace. -/
+theorem recv_ledger_replays (maxRcv : Nat) : ∀ (evs : List REv) (st : RState), st.w.h.Replays →
+    (recvRun maxRcv st evs).2.w.h.Replays ∧ (recvCleanup (recvRun maxRcv st evs).2).h.Replays := by
+  have hclean : ∀ st : RState, st.w.h.Replays → (recvCleanup st).h.Replays := by
+    intro st hr
+    unfold recvCleanup
+    cases st.sess with
+    | none => exact hr
+    | some s => exact replays_sessionFree s _ hr
+  have hstep : ∀ (st : RState) (e : REv), st.w.h.Replays → (recvStep maxRcv st e).2.w.h.Replays := by
+    intro st e hr
+    unfold recvStep
+    cases e with
+    | chunk bs =>
+      cases st.sess with
+      | none => exact hr
+      | some s =>
+        simp only
+        split
+        · exact replays_call maxRcv _ s st.w bs hr
+        · exact hr
+    | eof =>
+      cases st.sess with
+      | none => exact hr
+      | some s =>
+        simp only
+        split
+        · exact replays_disconnected s _ hr
+        · exact hr
+    | newSess =>
+      cases st.sess with
+      | none => exact hr
+      | some s => exact replays_sessionFree s _ hr
+  have hrun : ∀ (evs : List REv) (st : RState), st.w.h.Replays → (recvRun maxRcv st evs).2.w.h.Replays := by
+    intro evs
+    induction evs with
+    | nil => intro st hr; exact hr
+    | cons e es ih => intro st hr; exact ih _ (hstep st e hr)
+  intro evs st hr
+  exact ⟨hrun evs st hr, hclean _ (hrun evs st hr)⟩
+
 /-! ## witnesses (`decide`): hypotheses are satisfiable, and the new session IS served -/
 
 /-- PUT-like message of 300 bytes after the header (Len nibble 14, extended length 31): needs the growth (request 3) -/
@@ -121,5 +350,18 @@ example :
     let w0 : RW := { h := { orc := [] }, dcs := [true] }
     let r := recvRun 8388858 { w := w0 } [.chunk (smallMsg ++ smallMsg.take 3)]
     r.1 = ["c"] ∧ r.2.w.h.live = [4, 3] ∧ (recvCleanup r.2).h.live = [] ∧ (recvCleanup r.2).h.ok = true := by decide
+
+-- recv_served_after_failure on a concrete past: request 3 (the growth) fails and closes the first session; the oracle is
+-- then exhausted (`Avail`), and the new session, fed two messages cut in the middle of the first, gets both dispatched
+example : Cap 8388858 := by unfold Cap M.Stream.maxHdr M.Stream.maxRx; omega
+example : Avail (recvRun 8388858 { w := { h := { orc := oracleFailing 3 0 3 } } } [.chunk bigMsg]).2.w := by
+  unfold Avail; decide +kernel
+example :
+    let st := (recvRun 8388858 { w := { h := { orc := oracleFailing 3 0 3 } } } [.chunk bigMsg, .newSess]).2
+    let r := (recvRun 8388858 st ([smallMsg.take 1, smallMsg.drop 1 ++ smallMsg].map .chunk)).2
+    r.w.msgs.length = 2 ∧ r.w.dsp.length = 2 ∧ (Spec.Stream.framesOf 8388858 (smallMsg ++ smallMsg)).1.length = 2 ∧
+    r.w.h.live = [] := by decide +kernel
+-- the hypothesis of recv_ledger_replays: a fresh context
+example : ({ w := { h := { orc := oracleFailing 3 0 3 } } } : RState).w.h.Replays := replays_init _
 
 end Coap.C18
